@@ -380,6 +380,12 @@ MUTANTS = {
     "rev_fix_dummy_zero_weights": {
         "props": ["C09"], "what": "revert the later fix: the DummyClassifier fallback is fitted with the (possibly all-zero) weights as plain sample_weight",
         "edits": [(GS, "                fit_params = {}\n", "                fit_params = {\"sample_weight\": weights}\n")]},
+    "rev_fix_dict_series_alignment": {
+        "props": ["C12"], "what": "revert fix 131849b: dict-of-Series features aligned on index labels by pd.DataFrame.from_dict",
+        "edits": [(MF, "                k: v.to_numpy() if isinstance(v, pd.Series) else v for k, v in features.items()", "                k: v for k, v in features.items()")]},
+    "rev_fix_thresholder_float32_scores": {
+        "props": ["C04", "C10"], "what": "revert fix 2e32ab5: probability vector keeps the dtype of the scores (float32 scores raise in predict)",
+        "edits": [(IT, "        positive_probs = 0.0 * base_predictions_vector.astype(np.float64)", "        positive_probs = 0.0 * base_predictions_vector")]},
     "rev_fix_error_rate_parity_uint8": {
         "props": ["C06"], "what": "revert fix 1283ce5: ErrorRateParity utilities built in the labels' own dtype",
         "edits": [(UP, "        utilities = np.vstack([y_float, 1 - y_float]).T", "        utilities = np.vstack([y_train, 1 - y_train]).T")]},
